@@ -11,7 +11,7 @@
 //!
 //!   record_dispatcher --seed S --runs N [--from K] --out T.ndjson --programs P.jsonl
 //!   record_dispatcher --replay prog.json --repeat R --out .. --programs ..
-//!   record_dispatcher --scenario pool1|poolrace [--repeat R] --out .. --programs ..
+//!   record_dispatcher --scenario pool1|poolrace|poolpanic [--repeat R] --out .. --programs ..
 use std::{
     cell::{Cell, RefCell},
     fs::File,
@@ -37,7 +37,9 @@ use compio_runtime::Runtime;
 use futures_channel::oneshot;
 use hcore::out::{Report, panic_msg};
 use hdisp::{
-    program::{Op, Program, Step, TaskSpec, generate, scenario_pool1, scenario_poolrace},
+    program::{
+        Op, Program, Step, TaskSpec, generate, scenario_pool1, scenario_poolpanic, scenario_poolrace,
+    },
     recorder::{Ev, Recorder},
 };
 use serde_json::{Value, json};
@@ -583,7 +585,20 @@ fn run_one(run: u64, p: &Program, report: &mut Report, out: &mut File, progs: &m
         }
         Err(RecvTimeoutError::Timeout) | Err(RecvTimeoutError::Disconnected) => {
             let status = sh.status.lock().unwrap().clone();
-            let whr = if status[0] == "join" { "join" } else { "receiver" };
+            let stuck_dispatch = status[1..].iter().find(|s| s.starts_with("dispatching task "));
+            let whr = if stuck_dispatch.is_some() {
+                "dispatch"
+            } else if status[0] == "join" {
+                "join"
+            } else {
+                "receiver"
+            };
+            let stuck_kind = stuck_dispatch
+                .and_then(|s| s.strip_prefix("dispatching task "))
+                .and_then(|n| n.parse::<u32>().ok())
+                .and_then(|id| p.tasks.iter().find(|t| t.id == id))
+                .map(|t| t.kind.clone())
+                .unwrap_or_else(|| "none".into());
             let events: Vec<Value> = rec
                 .snapshot()
                 .iter()
@@ -593,8 +608,10 @@ fn run_one(run: u64, p: &Program, report: &mut Report, out: &mut File, progs: &m
             let case = json!({"run": run, "program": p, "events": events, "threads": status});
             report.problem(
                 "hang",
-                json!({"site": "dispatcher", "kind": "hang", "where": whr, "pool_limit": p.pool_limit,
-                       "uses_pool": p.uses_pool(), "fault": p.fault, "concurrent": p.concurrent}),
+                json!({"site": "dispatcher", "kind": "hang", "where": whr, "stuck_kind": stuck_kind,
+                       "pool_limit": p.pool_limit, "uses_pool": p.uses_pool(),
+                       "blocking_panics": p.blocking_panics(), "fault": p.fault,
+                       "concurrent": p.concurrent}),
                 format!(
                     "run did not finish within {} ms; joining thread: {}; dispatching threads: {:?}",
                     p.watchdog_ms,
@@ -663,6 +680,11 @@ fn main() {
             "poolrace" => {
                 for k in 0..repeat.max(1) {
                     plan.push((from + k, scenario_poolrace()));
+                }
+            }
+            "poolpanic" => {
+                for k in 0..repeat.max(1) {
+                    plan.push((from + k, scenario_poolpanic()));
                 }
             }
             other => panic!("unknown scenario {other}"),
